@@ -31,7 +31,7 @@ PY
 rm -f "$OUT/junit.xml"
 # our check against the changed copy
 MXLPY_VERIF_REPO="$D" /verif/check "$ID" --tier "$TIER" > "$OUT/check.log" 2>&1; RC=$?
-grep -E "^VIOLATION|^KNOWN-FINDING" "$OUT/check.log" | head -5 > "$OUT/check_verdict.txt"
+(grep -E "^VIOLATION" "$OUT/check.log" | head -4; grep -E "^KNOWN-FINDING" "$OUT/check.log" | cut -c1-200 | sort -u | head -6) > "$OUT/check_verdict.txt"
 REPLAY=$(grep -m1 -oE "replay=[^ ]+" "$OUT/check.log" | cut -d= -f2)
 [ -n "$REPLAY" ] && [ -f "$REPLAY" ] && cp "$REPLAY" "$OUT/replay.json"
 rm -rf "$D"
